@@ -23,3 +23,10 @@ def replay_encoding(ob):
     if new:
         return {'reproduced': True, 'input': new[:4]}
     return {'reproduced': None, 'note': 'encoding sweep shows no new failure', 'detail': r.get('error')}
+
+
+def replay_c08(ob):
+    if ob.get('name', '').startswith(('C03/', 'C04/')):
+        return replay_rename(ob)
+    from props.replay_printer import replay_printer
+    return replay_printer(ob)
